@@ -28,7 +28,11 @@ class RefLssSlave:
         self.illegal.append((reason, bytes(d).hex()))
 
     def _send(self, data):
-        self.ep.send(0x7E4, bytes(data), delay=self.resp_delay)
+        extra = 0
+        m = self.reply_mode
+        if m is not None and m[0] == "late":
+            extra = m[1]
+        self.ep.send(0x7E4, bytes(data), delay=self.resp_delay + extra)
 
     def handler(self, can_id, data, rtr, ts):
         if can_id != 0x7E5:
